@@ -52,11 +52,16 @@ func (f *Rplacd) Call(s *slip.Scope, args slip.List, depth int) (result slip.Obj
 	}
 	if 1 < len(list) {
 		list = list[:2]
-		if a2, ok2 := args[1].(slip.List); ok2 {
+		if args[1] == nil {
+			// A nil cdr leaves a list with just the car, not a (car . nil).
+			list = list[:1]
+		} else if a2, ok2 := args[1].(slip.List); ok2 {
 			list = append(list[:1], a2...)
 		} else {
 			list[1] = slip.Tail{Value: args[1]}
 		}
+	} else if args[1] == nil {
+		// The cdr is already nil.
 	} else if a2, ok2 := args[1].(slip.List); ok2 {
 		list = append(list, a2...)
 	} else {
